@@ -235,6 +235,69 @@ class FromRaw(VU):
         return "returns"
 
 
+class TrapView(VU):
+    """pythonic.TrapInfo over a delivered Trap: origin, uptime, oid and values are those of THE trap it wraps - also for the
+    second and third notification of a listener's life (a view kept at class level would hand out the first one's)."""
+    props = ("C19",)
+    label = "proved-shape-bounded(payload of the enumerated length; all leaves symbolic; three notifications in a row)"
+    target = "puresnmp.api.pythonic:TrapInfo"
+    functions = ("puresnmp.api.pythonic:TrapInfo.__init__", "puresnmp.api.pythonic:TrapInfo.origin", "puresnmp.api.pythonic:TrapInfo.uptime",
+                 "puresnmp.api.pythonic:TrapInfo.oid", "puresnmp.api.pythonic:TrapInfo.values", "puresnmp.varbind:PyVarBind.from_raw")
+
+    def __init__(self, k):
+        self.k = k
+        self.name = "pythonic.TrapInfo[%d payload bindings, three notifications]" % k
+
+    def setup(self, rt, interp):
+        self.rt = rt
+        if rt.oid is None:
+            rt.oid = OidTheory(rt)
+        self.xv = XValTheory(rt, interp)
+
+    def run(self, interp):
+        ctx, rt = interp.ctx, self.rt
+        cls = get_cls(rt, interp, "puresnmp.api.pythonic:TrapInfo")
+        trap_cls = get_cls(rt, interp, "puresnmp.pdu:Trap")
+        content_cls = get_cls(rt, interp, "puresnmp.pdu:PDUContent")
+        info_cls = get_cls(rt, interp, "puresnmp.typevars:SocketInfo")
+        T = self.target
+        for round_ in range(3):
+            n = self.k + 2
+            oids = [ctx.fresh_oid("n%d_oid%d" % (round_, i)) for i in range(n)]
+            vals = [self.xv.fresh(ctx, "n%d_val%d" % (round_, i)) for i in range(n)]
+            addr = ctx.fresh_str("n%d_address" % round_)
+            src = Obj(info_cls, {"address": addr, "port": ctx.fresh_int("n%d_port" % round_)})
+            content = rt.instantiate(interp, content_cls, [ctx.fresh_int("rid"), [varbind(rt, interp, o, v) for o, v in zip(oids, vals)]], {})
+            trap = rt.instantiate(interp, trap_cls, [content], {})
+            rt.setattr(interp, trap, "source", src)
+            view = rt.instantiate(interp, cls, [trap], {})
+            tag = "(notification %d)" % (round_ + 1)
+            ctx.check(oname("C19", T, "ensures", "origin-is-the-senders-address" + tag), interp.eq(rt.getattr(interp, view, "origin"), addr))
+            ctx.check(oname("C19", T, "ensures", "uptime-is-the-first-binding-pythonised" + tag),
+                      interp.eq(rt.getattr(interp, view, "uptime"), SPy(rt.f_pyz(vals[0].e))))
+            ctx.check(oname("C19", T, "ensures", "oid-is-the-second-binding-pythonised" + tag),
+                      interp.eq(rt.getattr(interp, view, "oid"), SPy(rt.f_pyz(vals[1].e))))
+            # (two payload bindings with one OID collapse into one key: the later value wins, as in any dict)
+            for i in range(2, n):
+                for j in range(i + 1, n):
+                    ctx.assume(Not(interp.eq(oids[i], oids[j])))
+                    # str() of an OID is its dotted-decimal text: distinct OIDs have distinct texts
+                    ctx.assume(Not(interp.eq(SStr(rt.f_oidstr(oids[i].e)), SStr(rt.f_oidstr(oids[j].e)))))
+            values = rt.getattr(interp, view, "values")
+            pairs = list(rt.dict_items(interp, values)) if isinstance(values, (PDict, dict)) else None
+            ok = pairs is not None and len(pairs) == self.k
+            ctx.check(oname("C19", T, "ensures", "values-has-one-entry-per-payload-binding" + tag), ok)
+            if ok:
+                ctx.check(oname("C19", T, "ensures", "values-maps-each-payload-oid-as-str-to-its-pythonised-value" + tag),
+                          And(*[And(interp.eq(pairs[i][0], SStr(rt.f_oidstr(oids[i + 2].e))), interp.eq(pairs[i][1], SPy(rt.f_pyz(vals[i + 2].e))))
+                                for i in range(self.k)]))
+        return "returns"
+
+
+def units_trapview(tier):
+    return [TrapView(k) for k in ((0, 1, 2) if tier == "quick" else (0, 1, 2, 3))]
+
+
 def units(tier):
     us = [FromRaw()]
     ks = (0, 1, 2) if tier == "quick" else (0, 1, 2, 3)
